@@ -120,6 +120,44 @@ pub fn c02_scopes_do_not_interfere() {
     std::mem::forget(r);
 }
 
+/// a type that lives only in a PARENT scope, requested through the child: the same rules apply and a refused request is an
+/// error value, never a panic (the non-panicking accessors must stay non-panicking on the recursive path)
+/// @verif anchor=StateRegistry::try_borrow_mut bound="two scopes: A in the root only, B in the child; guards taken through the child"
+#[cfg_attr(kani, kani::proof)] #[cfg_attr(kani, kani::unwind(5))]
+pub fn c02_conflict_through_parent_scope() {
+    let (a0, b1, x): (u32, u32, u32) = (sym(), sym(), sym());
+    let mut r = StateRegistry::new();
+    r.insert(A(a0));
+    let mut r = r.into_child();
+    r.insert(B(b1));
+    {
+        let (o1, g1) = classify(r.try_borrow::<A>());
+        assert!(o1 == Outcome::Granted && g1.as_ref().unwrap().0 == a0, "a type in a parent scope must be readable through the child");
+        let (o2, g2) = classify(r.try_borrow_mut::<A>());
+        assert!(o2 == Outcome::ConflictMut && g2.is_none(), "an exclusive guard must be refused (with an error) while a shared guard is alive");
+        assert!(r.set_value::<A>(x).is_none(), "set_value must be refused (None) while a shared guard is alive");
+        let (o3, _) = classify(r.try_borrow_value_mut::<A>());
+        assert!(o3 == Outcome::ConflictMut, "value writes go through the same flag");
+        drop(g1);
+        let (o4, g4) = classify(r.try_borrow_mut::<A>());
+        assert!(o4 == Outcome::Granted, "dropping the guard must make the state available again");
+        let mut g4 = g4.unwrap();
+        let (o5, _) = classify(r.try_borrow::<A>());
+        assert!(o5 == Outcome::ConflictImm, "a shared guard must be refused while the exclusive guard is alive");
+        let (o6, _) = classify(r.try_borrow_mut::<A>());
+        assert!(o6 == Outcome::ConflictMut, "a second exclusive guard must be refused");
+        g4.0 = x;
+        drop(g4);
+        let (o7, g7) = classify(r.parent().unwrap().try_borrow::<A>());
+        assert!(o7 == Outcome::Granted && g7.unwrap().0 == x, "the write through the child is what a reader of the parent scope sees");
+        // absent everywhere: an error, also on the recursive path
+        assert!(classify(r.try_borrow_mut::<C>()).0 == Outcome::NotFound);
+        assert!(classify(r.try_borrow::<C>()).0 == Outcome::NotFound);
+        assert!(r.set_value::<C>(1).is_none());
+    }
+    std::mem::forget(r);
+}
+
 /// an absent type is an error (never invented), for both kinds of guard
 /// @verif anchor=StateRegistry::try_borrow bound="one scope {A,B}; request for C"
 #[cfg_attr(kani, kani::proof)] #[cfg_attr(kani, kani::unwind(5))]
